@@ -82,6 +82,12 @@ def main():
             built = mod.build(reg)
             n = len(built["verify"])
             nl = len(built.get("lemmas", []))
+            names_ = [f"{sp.file}:{sp.qual}" + (f"[{sp.label}]" if getattr(sp, "label", "") else "") for sp in built["verify"]]
+            dups_ = sorted({x for x in names_ if names_.count(x) > 1})
+            if dups_:
+                # two contracts reported under one name: evidence, obligation baseline and seed audit are keyed by that name
+                print(f"SPEC-ERROR {pid}: several contracts for the same function in one check: {dups_}")
+                sys.exit(3)
             reports = []
             jobs = [("v", i) for i in range(n)] + [("l", i) for i in range(nl)]
             if a.only:
